@@ -139,6 +139,7 @@ type PersistentHybridIndex struct {
 	flushChan      chan struct{}
 	compactionChan chan struct{}
 	closeChan      chan struct{}
+	finalFlushErr  error // result of the final flush; written by flushWorker before wg.Done
 	wg             sync.WaitGroup
 
 	// State
@@ -834,7 +835,7 @@ func (s *PersistentHybridIndex) flushWorker() {
 		case <-s.closeChan:
 			// Final flush before closing (including the active memtable)
 			s.memtableQueue.rotateIfNotEmpty()
-			s.flushMemtables()
+			s.finalFlushErr = s.flushMemtables()
 			return
 		}
 	}
@@ -887,6 +888,11 @@ func (s *PersistentHybridIndex) Close() error {
 	// Close provider (releases lock)
 	if err := s.provider.close(); err != nil {
 		return fmt.Errorf("failed to close provider: %w", err)
+	}
+
+	// A failed final flush means acknowledged documents were not persisted
+	if s.finalFlushErr != nil {
+		return fmt.Errorf("final flush failed: %w", s.finalFlushErr)
 	}
 
 	return nil
